@@ -1291,6 +1291,10 @@ pub fn parse_chunk_size(buf: &[u8])
     let mut count = 0;
     loop {
         let b = next!(bytes);
+        if count == 0 && !b.is_ascii_hexdigit() {
+            // a chunk size must have at least one hex digit
+            return Err(InvalidChunkSize);
+        }
         match b {
             b'0' ..= b'9' if in_chunk_size => {
                 if count > 15 {
